@@ -711,7 +711,7 @@ pub fn run_index(id: &str, tier: &str, seed: u64, idx: u64, stats: &mut Stats, k
     if id == "C11" && idx % 128 == 11 {
         return c11_sweep(id, seed, idx, stats, known);
     }
-    if id == "C09" && idx % 16 == 13 {
+    if (id == "C09" || id == "C10") && idx % 16 == 13 {
         // the real backend alone on trees with indirect links (outside the comparison domain)
         return diffw::solo_index(id, tier, seed, idx, stats, known);
     }
